@@ -7,7 +7,7 @@ import "github.com/plgd-dev/go-coap/v3/message/pool"
 
 const Enabled = false
 
-func Hold(*pool.Message, string)            {}
-func Unhold(*pool.Message)                  {}
-func Points()                               {}
+func Hold(*pool.Message, string)              {}
+func Unhold(*pool.Message)                    {}
+func Points()                                 {}
 func Stats() (acquired, released, checks int) { return }
